@@ -76,7 +76,7 @@ def prepare_module():
     modfile = gomod
     if REPO != "/repo":
         # scratch target (sensitivity self-test only): separate modfile, /verif/sim/go.mod untouched
-        modfile = os.path.join(BIN, "alt-%s.mod" % re.sub(r"[^A-Za-z0-9]", "_", REPO))
+        modfile = os.path.join(BIN, "alt.mod")  # one scratch target at a time
         os.makedirs(BIN, exist_ok=True)
     cur = open(modfile).read() if os.path.exists(modfile) else ""
     if cur != want:
@@ -88,7 +88,7 @@ def prepare_module():
 def build(race):
     os.makedirs(BIN, exist_ok=True)
     modfile = prepare_module()
-    tag = re.sub(r"[^A-Za-z0-9]", "_", REPO) if REPO != "/repo" else "repo"
+    tag = "alt" if REPO != "/repo" else "repo"
     out = os.path.join(BIN, "sim-%s%s.test" % (tag, "-race" if race else ""))
     cmd = [GO, "test", "-c", "-tags", "verif", "-o", out]
     if modfile != os.path.join(SIM, "go.mod"):
